@@ -4,7 +4,7 @@ from engine import sx
 
 PID = "C17"
 THEOREMS = ["C17_canonical", "C17_shortest", "C17_too_large", "C17_parse", "C17_vi", "C17_prefix_free",
-            "C17_prepend", "C17_sat_decimal"]
+            "C17_prepend", "C17_sat_decimal", "C17_sat_float", "C17_sat_float_near"]
 TECHNIQUE = "Coq proof (lia over the piecewise boundaries; Flocq for the float path) + extracted-model correspondence"
 RULE = ("n exhaustively 0..70000, +-3 around 252/253/2^16/2^32/2^64, negatives, random 64-bit; decoders on encoder output "
         "with random suffixes, truncated and non-canonical inputs; amounts as int / Decimal (<= 8 decimals) / float over "
